@@ -198,6 +198,10 @@ impl Type {
                         write!(buffer, ", ").unwrap();
                     }
                 }
+                if t.elements.len() == 1 {
+                    // `(T)` is a parenthesized `T`; a 1-tuple needs the trailing comma.
+                    write!(buffer, ",").unwrap();
+                }
                 write!(buffer, ")").unwrap();
             }
             Type::ScalarPrimitive(s) => {
